@@ -126,7 +126,7 @@ def check(run):
 
     # ---- (1b) template stream: a multi-cell range (or a name for it) among the inputs --------------------------------------
     for k in range(40 if quick else 1500):
-        wb, R, name, outs = bookgen.range_template(rnd)
+        wb, R, name, outs = bookgen.range_template(rnd, solution_reads=False)
         d = wb.to_dict(explicit_blanks=wb.explicit)
         case = {'workbook': {k_: (str(v) if isinstance(v, bookgen.Err) else v) for k_, v in d.items()}, 'stream': 'range-template'}
         how = rnd.choice((['range', 'sub-range', 'name'] if name else ['range', 'sub-range']) if (wb.explicit and not wb.has_array) else (['range', 'name'] if name else ['range']))
@@ -334,6 +334,15 @@ def check(run):
         full, comp = 'raised', type(ex).__name__
     run.replay_witness('compile-unlisted-blank-input', full != comp, {'witness': 'from_dict({A1:1,A2:2,A3:3,B1:=SUM(A1:A10)}): compile([A7],[B1])(5) vs calculate({A7:5})',
                                                                        'compiled': comp, 'calculated': full})
+    # the exact witness of known finding compile-range-over-unlisted-blanks
+    try:
+        dw = {P + 'A1': 1, P + 'B2': '=SUM(%sA1:A3)' % P, P + 'B3': '=SUM(%sA2:A3)' % P}
+        full = wires(bookrun.ExcelModel().from_dict(dw).calculate(inputs={P + 'A1:A3': [[10], [20], [30]]})[P + 'B3'])
+        comp = wires(bookrun.ExcelModel().from_dict(dw).compile(inputs=[P + 'A1:A3'], outputs=[P + 'B3'])([[10], [20], [30]]))
+    except Exception as ex:
+        full, comp = 'raised', type(ex).__name__
+    run.replay_witness('compile-range-over-unlisted-blanks', full != comp, {'witness': 'from_dict({A1:1,B2:=SUM(A1:A3),B3:=SUM(A2:A3)}): compile([A1:A3],[B3])([[10],[20],[30]]) vs calculate',
+                                                                             'compiled': comp, 'calculated': full})
     run.extra['model_requests'] = len(req)
     return None
 
